@@ -14,13 +14,13 @@ echo "demo files: $demo_files" >> $log
 # name of the demo test target / filter
 for pk in $pkgs; do
   echo "== existing + demo tests of $pk WITH change" >> $log
-  cargo test -p $pk --offline --no-fail-fast $(echo $pk | grep -q '^mls-rs$' && echo "--features test_util") >> $log 2>&1
+  cargo test -p $pk --offline --no-fail-fast $(echo $pk | grep -q '^mls-rs$' && echo "--features ${FEATURES:-test_util}") >> $log 2>&1
   echo "rc_with=$?" >> $log
 done
 git apply -R $d/patch.diff
 for pk in $pkgs; do
   echo "== existing + demo tests of $pk WITHOUT change" >> $log
-  cargo test -p $pk --offline --no-fail-fast $(echo $pk | grep -q '^mls-rs$' && echo "--features test_util") >> $log 2>&1
+  cargo test -p $pk --offline --no-fail-fast $(echo $pk | grep -q '^mls-rs$' && echo "--features ${FEATURES:-test_util}") >> $log 2>&1
   echo "rc_without=$?" >> $log
 done
 git checkout -q -- . && git clean -fdq -e target
